@@ -214,6 +214,44 @@ func hdrOK(m *uMsg, k, v string) bool {
 	return v == "" || strings.Contains(strings.ToLower(hv), strings.ToLower(v))
 }
 
+// c19Saved: the saved result of the previous SEARCH, which the imap.SearchRes() marker ("$",
+// RFC 5182) stands for wherever it occurs among the UID sets of a criteria value. It overlaps
+// every other field's partition of the universe without coinciding with any.
+func c19Saved(uid uint32) bool { return uid%3 == 2 || uid == 4 || uid == 7 }
+
+// countSearchRes: how many times the criteria (at any depth) refer to the saved result
+func countSearchRes(c *imap.SearchCriteria) int {
+	n := 0
+	for _, s := range c.UID {
+		if imap.IsSearchRes(s) {
+			n++
+		}
+	}
+	for i := range c.Not {
+		n += countSearchRes(&c.Not[i])
+	}
+	for i := range c.Or {
+		n += countSearchRes(&c.Or[i][0]) + countSearchRes(&c.Or[i][1])
+	}
+	return n
+}
+
+func hasSearchRes(c *imap.SearchCriteria) bool { return countSearchRes(c) > 0 }
+
+// resDesc: the UID sets of a criteria value with the "$" marker made visible (the Coq rendering
+// shows it as a set without ranges)
+func resDesc(c *imap.SearchCriteria) string {
+	var p []string
+	for _, s := range c.UID {
+		if imap.IsSearchRes(s) {
+			p = append(p, "$")
+		} else {
+			p = append(p, fmt.Sprintf("%q", s.String()))
+		}
+	}
+	return "UID[" + strings.Join(p, " ") + "]"
+}
+
 // critMatch: documented meaning of a SearchCriteria value (every populated field must hold).
 func critMatch(m *uMsg, c *imap.SearchCriteria) bool {
 	for _, s := range c.SeqNum {
@@ -222,6 +260,12 @@ func critMatch(m *uMsg, c *imap.SearchCriteria) bool {
 		}
 	}
 	for _, s := range c.UID {
+		if imap.IsSearchRes(s) {
+			if !c19Saved(m.UID) {
+				return false
+			}
+			continue
+		}
 		if !s.Contains(imap.UID(m.UID)) {
 			return false
 		}
@@ -303,6 +347,9 @@ func (k sKey) wire() string {
 		return k.S
 	case "UID":
 		return "UID " + k.S
+	case "RES":
+		// the saved result of the previous SEARCH, written "$" or "UID $" (RFC 5182)
+		return k.S
 	case "KEYWORD", "UNKEYWORD":
 		return k.K + " " + k.S
 	case "HEADER":
@@ -375,6 +422,10 @@ func (k sKey) coq() string {
 		return "(KSeq " + coqSetText(k.S) + ")"
 	case "UID":
 		return "(KUid " + coqSetText(k.S) + ")"
+	case "RES":
+		// the model has no saved result: "$" is an opaque UID set without ranges there (the
+		// structure of the parsed criteria is compared; its meaning is checked by the Go oracle)
+		return "(KUid " + coqList(nil) + ")"
 	case "KEYWORD":
 		return "(KFlag " + coqHxS(k.S) + ")"
 	case "UNKEYWORD":
@@ -438,6 +489,8 @@ func keyMatch(m *uMsg, k sKey) bool {
 	case "UID":
 		s, _ := imapserverParseSet(k.S)
 		return s.Contains(m.UID)
+	case "RES":
+		return c19Saved(m.UID)
 	case "KEYWORD":
 		return m.Flags[strings.ToLower(k.S)]
 	case "UNKEYWORD":
@@ -522,6 +575,9 @@ func (g *c19) randKey(depth int) sKey {
 	case 2:
 		return sKey{K: "SEQ", S: g.randSet()}
 	case 3:
+		if r.Intn(4) == 0 {
+			return sKey{K: "RES", S: []string{"$", "UID $"}[r.Intn(2)]}
+		}
 		return sKey{K: "UID", S: g.randSet()}
 	case 4:
 		return sKey{K: []string{"KEYWORD", "UNKEYWORD"}[r.Intn(2)], S: []string{"$a", "$b", "$c"}[r.Intn(3)]}
@@ -564,6 +620,10 @@ func (g *c19) randCriteria(depth int) imap.SearchCriteria {
 			u = append(u, imap.UIDRange{Start: imap.UID(x.Start), Stop: imap.UID(x.Stop)})
 		}
 		c.UID = append(c.UID, u)
+	}
+	// the saved search result as a UID constraint, alone or next to an ordinary UID set
+	if r.Intn(8) == 0 {
+		c.UID = append(c.UID, imap.SearchRes())
 	}
 	if pick() {
 		c.Since = dayN(r.Intn(len(c19Days)))
@@ -681,13 +741,17 @@ func runC19(h *H) {
 	andCorr := h.NewCorr("and", append(append([]string(nil), imports...), "From GoImap.Model Require Import SearchModSeq."), "xand_mismatches", 400).Type("xand_case")
 	keyCorr := h.NewCorr("keys", imports, "keys_mismatches", 400).Type("keys_case")
 	g := &c19{h: h, u: universe()}
-	h.Rule("(1) SearchCriteria.And on generated pairs of criteria (every field set/unset, sizes incl. 0 and negative, nested NOT/OR to depth 2): field-by-field against the model, and match results of an independent matcher on a message universe whose dates span months and years distinguishing every field; (2) SEARCH commands (1..5 keys, all key kinds, NOT/OR/parenthesised lists, every permutation when <= 4 keys) through the real server parser to a recording stub session: recorded criteria against the model's parse_keys and against the RFC meaning of each key on the universe. Non-trivial = both operands constrain the same date/size field, or the command has >= 2 keys; distinct by rendered case.")
+	h.Rule("(1) SearchCriteria.And on generated pairs of criteria (every field set/unset, sizes incl. 0 and negative, UID sets incl. the SEARCHRES marker imap.SearchRes() standing for a fixed saved result, nested NOT/OR to depth 2): field-by-field against the model, and match results of an independent matcher on a message universe whose dates span months and years distinguishing every field; (2) SEARCH commands (1..5 keys, all key kinds incl. the saved result $ / UID $, NOT/OR/parenthesised lists, every permutation when <= 4 keys) through the real server parser to a recording stub session: recorded criteria against the model's parse_keys and against the RFC meaning of each key on the universe. Non-trivial = both operands constrain the same date/size field, or the command has >= 2 keys; distinct by rendered case.")
 
 	checkAnd := func(a, b imap.SearchCriteria, src string) {
 		a0 := cloneCrit(a)
 		res := cloneCrit(a)
 		res.And(&b)
 		desc := map[string]interface{}{"a": critDesc(&a0), "b": critDesc(&b), "and": critDesc(&res)}
+		if hasSearchRes(&a0) || hasSearchRes(&b) {
+			desc["uid_sets"] = map[string]string{"a": resDesc(&a0), "b": resDesc(&b), "and": resDesc(&res)}
+			h.Hist("and:searchres-operand")
+		}
 		h.InFlight(desc)
 		for i := range g.u {
 			m := &g.u[i]
@@ -695,6 +759,8 @@ func runC19(h *H) {
 			if got := critMatch(m, &res); got != want {
 				lost := "other"
 				switch {
+				case countSearchRes(&res) != countSearchRes(&a0)+countSearchRes(&b):
+					lost = "searchres-lost"
 				case got && (failsModSeq(m, &a0) || failsModSeq(m, &b)):
 					lost = "modseq-lost"
 				case offDay(&a0) || offDay(&b):
@@ -710,8 +776,8 @@ func runC19(h *H) {
 			}
 		}
 		key := ""
-		if (a0.Smaller != 0 || b.Smaller != 0) || b.ModSeq != nil || (a0.Larger != 0 && b.Larger != 0) || (!a0.Since.IsZero() && !b.Since.IsZero()) || (!a0.Before.IsZero() && !b.Before.IsZero()) {
-			key = "and|" + critDesc(&a0) + "|" + critDesc(&b)
+		if (a0.Smaller != 0 || b.Smaller != 0) || b.ModSeq != nil || hasSearchRes(&a0) || hasSearchRes(&b) || (a0.Larger != 0 && b.Larger != 0) || (!a0.Since.IsZero() && !b.Since.IsZero()) || (!a0.Before.IsZero() && !b.Before.IsZero()) {
+			key = "and|" + critDesc(&a0) + "|" + critDesc(&b) + "|" + resDesc(&a0) + resDesc(&b)
 		}
 		h.Eval(key)
 		h.Hist("and:" + src)
@@ -829,6 +895,27 @@ func runC19(h *H) {
 		checkAnd(ms(5, "/flags/\\seen", imap.SearchCriteriaMetadataPrivate), ms(42, "/flags/\\seen", imap.SearchCriteriaMetadataPrivate), "corpus-modseq")
 		checkAnd(imap.SearchCriteria{Not: []imap.SearchCriteria{ms(20, "", "")}}, ms(5, "", ""), "corpus-modseq")
 	}
+	// the saved search result "$" (imap.SearchRes(), recognised by identity) is a UID constraint
+	// like any other: with every kind of other operand, in both orders, next to ordinary UID
+	// sets, twice, and inside NOT / OR
+	{
+		res := func() imap.SearchCriteria { return imap.SearchCriteria{UID: []imap.UIDSet{imap.SearchRes()}} }
+		var u14 imap.UIDSet
+		u14.AddRange(1, 14)
+		var s15 imap.SeqSet
+		s15.AddRange(1, 5)
+		others := []imap.SearchCriteria{
+			{}, {Flag: []imap.Flag{imap.FlagSeen}}, {NotFlag: []imap.Flag{imap.FlagSeen}}, {UID: []imap.UIDSet{u14}}, {SeqNum: []imap.SeqSet{s15}},
+			{Since: dayN(2)}, {Smaller: 100}, {Text: []string{"hello"}}, {ModSeq: &imap.SearchCriteriaModSeq{ModSeq: 20}}, res(),
+			{UID: []imap.UIDSet{u14, imap.SearchRes()}},
+			{Not: []imap.SearchCriteria{res()}},
+			{Or: [][2]imap.SearchCriteria{{res(), {Flag: []imap.Flag{imap.FlagSeen}}}}},
+		}
+		for _, o := range others {
+			checkAnd(o, res(), "corpus-searchres")
+			checkAnd(res(), o, "corpus-searchres")
+		}
+	}
 	// date bounds written in zones far from UTC: the calendar date decides, not the instant
 	{
 		east := time.FixedZone("", 14*3600)
@@ -865,6 +952,9 @@ func runC19(h *H) {
 		{{K: "SENTON", D: 2}, {K: "SENTBEFORE", D: 1}}, {{K: "SENTSINCE", D: 6}, {K: "SENTSINCE", D: 5}},
 		{{K: "NOT", Sub: []sKey{{K: "LIST", Sub: []sKey{{K: "SEEN"}, {K: "SMALLER", N: 100}}}}}},
 		{{K: "OR", Sub: []sKey{{K: "SEEN"}, {K: "LIST", Sub: []sKey{{K: "LARGER", N: 5}, {K: "SMALLER", N: 100}}}}}},
+		// the saved result among other keys, in both spellings
+		{{K: "SEEN"}, {K: "RES", S: "$"}}, {{K: "RES", S: "UID $"}, {K: "UID", S: "1:14"}, {K: "SMALLER", N: 100}},
+		{{K: "NOT", Sub: []sKey{{K: "RES", S: "$"}}}, {K: "SINCE", D: 1}}, {{K: "LIST", Sub: []sKey{{K: "RES", S: "$"}, {K: "SEEN"}}}, {K: "RES", S: "UID $"}},
 	} {
 		checkKeys(ks, "corpus")
 	}
